@@ -20,13 +20,15 @@ V(spec, sets, dis) == [spec |-> spec, sets |-> sets, dis |-> dis]
 SpReg == << A(200, "register", FALSE, FALSE) >>
 SpNum == << A(201, "numeric", FALSE, FALSE) >>
 SpInd == << A(202, "indirect_register", TRUE, FALSE) >>
+SpEmpty == << A(205, "empty", FALSE, FALSE) >>
 \* one-operand variants
-Pool1 == { V(sp, <<s>>, {}) : sp \in {<<>>, <<SpReg>>, <<SpNum>>, <<SpInd, SpReg>>}, s \in Sets1 }
-         \cup { V(<<SpReg>>, <<>>, {}), V(<<SpNum, SpReg>>, <<>>, {}) }
-Texts1 == { <<t>> : t \in {"r", "r2", "[r]", "[r+n]", "[n]", "[[n]]", "r+n", "key", "num", "lab", "{n}", "hexa", "chra", "r++", "@r"} }
+Pool1 == { V(sp, <<s>>, {}) : sp \in {<<>>, <<SpReg>>, <<SpNum>>, <<SpInd, SpReg>>, <<SpEmpty>>, <<SpEmpty, SpInd, SpReg>>, <<SpNum, SpEmpty>>}, s \in Sets1 }
+         \cup { V(<<SpReg>>, <<>>, {}), V(<<SpNum, SpReg>>, <<>>, {}), V(<<SpEmpty, SpReg>>, <<>>, {}) }
+\* "void": an operand slot with nothing in it (a stray, doubled or leading comma) - no alternative accepts it and it still counts as a slot
+Texts1 == { <<>>, <<"num", "void">>, <<"void", "num">>, <<"r", "void">>, <<"void", "r">> } \cup { <<t>> : t \in {"r", "r2", "[r]", "[r+n]", "[n]", "[[n]]", "r+n", "key", "num", "lab", "{n}", "hexa", "chra", "r++", "@r"} }
 \* two-operand variants
 Sp2 == << A(210, "register", FALSE, FALSE), A(211, "numeric", FALSE, FALSE) >>
 Pool2 == { V(sp, <<s1, s2>>, d) : sp \in {<<>>, <<Sp2>>}, s1 \in {SA, SE, SC}, s2 \in {SA, SD, SH},
                                   d \in {{}, {<<18, 17>>, <<82, 68>>}, {<<19, 130>>, <<18, 19>>, <<50, 17>>}} }
-Texts2 == { <<a, b>> : a \in {"r", "key", "num", "[r+n]", "r+n"}, b \in {"r", "key", "num", "lab"} }
+Texts2 == { <<"r", "void", "num">>, <<"r", "num", "void">>, <<"void", "r", "num">>, <<"r", "void">>, <<"void", "num">> } \cup { <<a, b>> : a \in {"r", "key", "num", "[r+n]", "r+n"}, b \in {"r", "key", "num", "lab"} }
 =============================================================================
